@@ -306,6 +306,18 @@ impl<'tcx> Cx<'tcx> {
                     }
                 }
             }
+        } else if let ty::Array(e, n) = ty.kind()
+            && *e == tcx.types.u8
+        {
+            // a by-value byte array constant (`let mut x = CONST_ARRAY;`)
+            if let Ok(val) = c.const_.eval(tcx, env, c.span) {
+                if let (ConstValue::Indirect { alloc_id, offset }, Some(n)) = (val, n.try_to_target_usize(tcx)) {
+                    if let Some(b) = self.bytes_of_alloc(alloc_id, offset.bytes() as usize, n as usize) {
+                        let v: Vec<String> = b.iter().map(|x| x.to_string()).collect();
+                        parts.push(format!("\"bytes\":{},\"by_value\":true", join(v)));
+                    }
+                }
+            }
         } else if let ty::Ref(..) = ty.kind() {
             if let Ok(val) = c.const_.eval(tcx, env, c.span) {
                 if let Some(b) = self.const_bytes(val, ty) {
